@@ -11,7 +11,12 @@ as a string.
 class MindsDBLexer(Lexer):
     reflags = re.IGNORECASE
     ignore = ' \t\r'
-    ignore_multi_comment = r'/\*[\s\S]*?\*/'
+
+    @_(r'/\*[\s\S]*?\*/')
+    def ignore_multi_comment(self, t):
+        # keep line numbers right after a comment that spans several lines
+        self.lineno += t.value.count('\n')
+
     ignore_line_comment = r'--[^\n]*'
 
     tokens = {
